@@ -9,7 +9,7 @@ CLAIMS = {
  "C12": dict(cat="fault_enumeration", tech="TLA+ oracle (Kv.tla CorruptProbe) for an exhaustive byte-level alteration sweep of closed images: each altered image is opened and checked by redb, TLC trace validation judges every distinct outcome",
    text="complete single-byte sweep (4 patterns) of compacted images plus header bit flips, byte runs and page swaps; Ok(true)/Ok(false) from check_integrity is accepted only with contents equal to one commit point of the history (and a clean second check after a repair).",
    note="panics on altered images are counted and treated like errors; alterations larger than 64 bytes other than page swaps are outside the quantifier", ref="DESIGN.md 4/C12"),
- "C11": dict(cat="fault_enumeration", tech="TLA+ oracle (Kv.tla CrashProbe + PagerInv.tla Owner1) for enumeration of open paths: clean close, every crash image (C01 machinery) incl. crashes during recovery; TLC trace validation of the observations and of the allocation state projected right after the open",
+ "C11": dict(cat="fault_enumeration", tech="TLA+ spec PagerCrash.tla (crash inside any critical section of the page-ownership model + rebuild) checked by TLC; TLA+ oracle (Kv.tla CrashProbe + PagerInv.tla Owner1) for enumeration of open paths: clean close, every crash image (C01 machinery) incl. crashes during recovery; TLC trace validation of the observations and of the allocation state projected right after the open",
    text="every open path is enumerated on real crash images and clean reopens; the recovered database must pass check_integrity with unchanged contents, its allocator state must be exactly the owned pages (sampled images), writes after recovery must not damage contents.",
    note="allocation-state projection on a sample of crash images; known finding C11/integrity-false-after-unpersisted-growth is reported separately", ref="DESIGN.md 4/C11"),
  "C10": dict(cat="exploration", tech="TLA+ predicates Forest.tla (well-formed checksummed forest) evaluated by TLC (ForestTrace.tla) on images that an independent decoder (/verif/decoder, written from docs/design.md, own XXH3) extracts from the storage bytes after every durable commit, compaction and clean close of random histories",
